@@ -115,6 +115,7 @@ class Ctx(object):
         self.trace = []
         self.outcomes = {}
         self.guards = {}
+        self.hooks = []
         self.by_id = {}       # spec id -> behaviour
         self.nid = {}         # behaviour uuid -> spec id
         self.names = {}
@@ -308,6 +309,10 @@ def build(spec, ctx, names=None):
         raise ValueError(spec)
     ctx.by_id[nid] = b
     ctx.nid[b.id] = nid
+    if t in ("Q", "S", "P"):
+        # the user's own hooks of a composite: logged (implementation-only line HK), never calling super()
+        b.initialise = lambda nid=nid: ctx.hooks.append("ci%d" % nid)
+        b.terminate = lambda new_status, nid=nid: ctx.hooks.append("ct%d:%s" % (nid, ST[new_status]))
     wrap_tick(b, nid, ctx)
     return b
 
@@ -387,7 +392,9 @@ def tips(root, ctx):
 
 
 def report(root, ctx):
-    return ["T " + " ".join(ctx.trace), "N " + dump(root, ctx), "W " + store_str(), "P " + tips(root, ctx)]
+    hk = "HK " + " ".join(ctx.hooks)
+    del ctx.hooks[:]
+    return ["T " + " ".join(ctx.trace), "N " + dump(root, ctx), "W " + store_str(), "P " + tips(root, ctx), hk]
 
 
 def parse_pairs(tok):
@@ -564,10 +571,20 @@ def _mtick(self, toks):
             # a handler that registers another visitor: it must take part in this very tick
             j = len([v for v in t.visitors if v is not spy])
             t.visitors.insert(len(t.visitors) - 1, LogVisitor(j, add == "f", self))
+    class Handler(object):
+        """a one-off handler is any callable: this one is an (empty) container object, i.e. falsy"""
+        def __init__(self, f):
+            self.f = f
+
+        def __call__(self, t):
+            return self.f(t)
+
+        def __len__(self):
+            return 0
     try:
         self.tree.tick(
-            pre_tick_handler=pre_once if (d.get("p") == "1" or add) else None,
-            post_tick_handler=(lambda t: (self.mlog.append("postOnce"), self.hcounts.append(t.count)))
+            pre_tick_handler=Handler(pre_once) if (d.get("p") == "1" or add) else None,
+            post_tick_handler=Handler(lambda t: (self.mlog.append("postOnce"), self.hcounts.append(t.count)))
             if d.get("q") == "1" else None)
     finally:
         self.tree.visitors.remove(spy)
